@@ -445,6 +445,45 @@ Proof.
   destruct H as [y [Hy E]]. apply N.eqb_eq in E. subst. contradiction.
 Qed.
 
+Lemma walk_wf h nt : forall rest t p d vs, WF nt t -> WF nt (walk h t p d rest vs (zero_vals nt)).
+Proof.
+  induction rest as [|f rest IH]; intros t p d vs Hwf; [exact Hwf|]. cbn [walk]. apply IH. apply bump_wf. exact Hwf.
+Qed.
+
+(* the self values add up to the weight, for every hash *)
+Lemma self_sum_gsum k t : self_sum k t = gsum (fun _ => 0%N) fst k t 0%N.
+Proof. reflexivity. Qed.
+
+Lemma bump_self_sum k nt t p f i leaf vs : (k < nt)%nat -> WF nt t ->
+  eqm (self_sum k (bump t p f i leaf vs (zero_vals nt))) (self_sum k t + if leaf then nth k vs 0 else 0).
+Proof.
+  intros Hk Hwf. rewrite !self_sum_gsum.
+  rewrite (bump_gsum (fun _ => 0%N) fst (fun _ _ => eq_refl) comp_fst eq_refl k nt p f i leaf vs 0%N 0%N Hk eq_refl t Hwf).
+  - reflexivity.
+  - intros n _ _. reflexivity.
+Qed.
+
+Lemma walk_self_sum h k nt : (k < nt)%nat -> forall rest t p d vs, WF nt t ->
+  eqm (self_sum k (walk h t p d rest vs (zero_vals nt))) (self_sum k t + if is_nil rest then 0 else nth k vs 0).
+Proof.
+  intros Hk. induction rest as [|f rest IH]; intros t p d vs Hwf; cbn [walk is_nil].
+  - apply eqm_of_eq. lia.
+  - rewrite IH by (apply bump_wf; exact Hwf). rewrite bump_self_sum by assumption.
+    apply eqm_of_eq. destruct rest; cbn [is_nil]; lia.
+Qed.
+
+Theorem self_sum_is_weight h nt ss k : (k < nt)%nat -> eqm (self_sum k (post_process h nt ss)) (weight k ss).
+Proof.
+  intros Hk. unfold post_process.
+  assert (G : forall ss t, WF nt t ->
+    eqm (self_sum k (fold_left (add_sample h (zero_vals nt)) ss t)) (self_sum k t + weight k ss)).
+  { clear ss. induction ss as [|s ss IH]; intros t Hwf; cbn [fold_left].
+    - apply eqm_of_eq. unfold weight. cbn. lia.
+    - rewrite IH by (apply walk_wf; exact Hwf). unfold add_sample at 1. rewrite walk_self_sum by assumption.
+      rewrite weight_cons, is_nil_rev. apply eqm_of_eq. lia. }
+  rewrite (G ss [] (fun n (H : In n []) => match H with end)). apply eqm_of_eq. unfold self_sum. cbn. lia.
+Qed.
+
 Theorem post_process_passes_oracle h nt ss k :
   (k < nt)%nat -> parent_determined h (triples h ss) ->
   rows_wellformed nt (post_process h nt ss) = true /\ rows_conserve k (post_process h nt ss) ss = true.
@@ -454,9 +493,10 @@ Proof.
   - unfold rows_wellformed. rewrite (ids_distinct_nodup _ Hnd). cbn [andb].
     apply forallb_forall. intros n Hn. destruct (Hwf n Hn) as [H1 H2].
     apply andb_true_iff. split; [apply negb_true_iff; apply N.eqb_neq; exact H1|apply Nat.eqb_eq; exact H2].
-  - unfold rows_conserve. apply andb_true_iff. split.
+  - unfold rows_conserve. apply andb_true_iff. split; [apply andb_true_iff; split|].
     + apply forallb_forall. intros n Hn. unfold node_conserves. apply Z.eqb_eq. apply Hcons. exact Hn.
     + apply Z.eqb_eq. exact Hroot.
+    + apply Z.eqb_eq. apply eqm_wrap64. apply self_sum_is_weight. exact Hk.
 Qed.
 
 (* ------------------------------------------------------------------ the hypothesis
@@ -554,4 +594,97 @@ Proof.
   subst t. unfold post_process. split.
   - intros x Hx. rewrite (Hbal x Hx). apply eqm_of_eq. lia.
   - rewrite Hroot. apply eqm_of_eq. reflexivity.
+Qed.
+
+(* ------------------------------------------------------------------ what the stored numbers mean
+   (no hypothesis on the hash): the total of id x is the sum over the samples of value * number of the
+   sample's frames whose node id is x; the self value counts the sample's leaf frame only *)
+Definition triple_id (h : N -> N -> N) (x : N * N * N) : N := let '(p, f, d) := x in node_id h p f d.
+Definition walk_ids (h : N -> N -> N) (p d : N) (rest : list N) : list N := map (triple_id h) (walk_triples h p d rest).
+Definition sample_ids (h : N -> N -> N) (s : sample) : list N := walk_ids h 0 1 (rev (s_stack s)).
+Definition cnt (x : N) (l : list N) : Z := sumZ (map (fun y => if N.eqb y x then 1 else 0) l).
+Definition leaf_cnt (x : N) (l : list N) : Z :=
+  match l with [] => 0 | _ => if N.eqb (last l 0%N) x then 1 else 0 end.
+
+Lemma walk_ids_cons h p d f rest :
+  walk_ids h p d (f :: rest) = node_id h p f d :: walk_ids h (node_id h p f d) (d + 1) rest.
+Proof. reflexivity. Qed.
+
+Lemma cnt_cons x y l : cnt x (y :: l) = (if N.eqb y x then 1 else 0) + cnt x l.
+Proof. reflexivity. Qed.
+
+
+Lemma walk_meaning h k nt : (k < nt)%nat -> forall rest t p d vs x, WF nt t ->
+  let t' := walk h t p d rest vs (zero_vals nt) in
+  eqm (tot_at k t' x) (tot_at k t x + nth k vs 0 * cnt x (walk_ids h p d rest)) /\
+  eqm (self_at k t' x) (self_at k t x + nth k vs 0 * leaf_cnt x (walk_ids h p d rest)).
+Proof.
+  intros Hk. induction rest as [|f rest IH]; intros t p d vs x Hwf.
+  - cbn [walk]. split; apply eqm_of_eq; unfold cnt, leaf_cnt, walk_ids; cbn; lia.
+  - cbn [walk]. rewrite walk_ids_cons. set (i := node_id h p f d).
+    set (t1 := bump t p f i (is_nil rest) vs (zero_vals nt)).
+    assert (Hwf1 : WF nt t1) by (apply bump_wf; exact Hwf).
+    destruct (IH t1 i (d + 1)%N vs x Hwf1) as [H1 H2]. cbn zeta in H1, H2.
+    split.
+    + rewrite H1. unfold t1. rewrite bump_tot by assumption. rewrite cnt_cons. apply eqm_of_eq.
+      destruct (N.eqb i x); lia.
+    + rewrite H2. unfold t1. rewrite bump_self by assumption. apply eqm_of_eq.
+      destruct rest as [|g rest'].
+      * cbn [is_nil walk_ids walk_triples map leaf_cnt last]. destruct (N.eqb i x); lia.
+      * cbn [is_nil]. rewrite walk_ids_cons. unfold leaf_cnt.
+        change (last (i :: node_id h i g (d + 1) :: walk_ids h (node_id h i g (d + 1)) (d + 1 + 1) rest') 0%N)
+          with (last (node_id h i g (d + 1) :: walk_ids h (node_id h i g (d + 1)) (d + 1 + 1) rest') 0%N).
+        destruct (N.eqb i x); lia.
+Qed.
+
+Theorem stored_values_meaning h nt ss k x : (k < nt)%nat ->
+  let t := post_process h nt ss in
+  eqm (tot_at k t x) (sumZ (map (fun s => nth k (s_values s) 0 * cnt x (sample_ids h s)) ss)) /\
+  eqm (self_at k t x) (sumZ (map (fun s => nth k (s_values s) 0 * leaf_cnt x (sample_ids h s)) ss)).
+Proof.
+  intros Hk. unfold post_process.
+  assert (G : forall ss t, WF nt t ->
+    let t' := fold_left (add_sample h (zero_vals nt)) ss t in
+    WF nt t' /\
+    eqm (tot_at k t' x) (tot_at k t x + sumZ (map (fun s => nth k (s_values s) 0 * cnt x (sample_ids h s)) ss)) /\
+    eqm (self_at k t' x) (self_at k t x + sumZ (map (fun s => nth k (s_values s) 0 * leaf_cnt x (sample_ids h s)) ss))).
+  { clear ss. induction ss as [|s ss IH]; intros t Hwf; cbn [fold_left map sumZ fold_right].
+    - split; [exact Hwf|]. split; apply eqm_of_eq; lia.
+    - assert (Hwf1 : WF nt (add_sample h (zero_vals nt) t s)) by (apply walk_wf; exact Hwf).
+      destruct (IH _ Hwf1) as (H0 & H1 & H2). cbn zeta in H1, H2.
+      destruct (walk_meaning h k nt Hk (rev (s_stack s)) t 0%N 1%N (s_values s) x Hwf) as [W1 W2]. cbn zeta in W1, W2.
+      split; [exact H0|]. unfold sumZ in *. split.
+      + rewrite H1. unfold add_sample at 1. rewrite W1. apply eqm_of_eq. unfold sample_ids. lia.
+      + rewrite H2. unfold add_sample at 1. rewrite W2. apply eqm_of_eq. unfold sample_ids. lia. }
+  destruct (G ss [] (fun n (H : In n []) => match H with end)) as (_ & H1 & H2). cbn zeta in H1, H2.
+  split; [rewrite H1|rewrite H2]; apply eqm_of_eq; unfold tot_at, self_at; cbn; lia.
+Qed.
+
+Lemma walk_nodup_range h : forall rest t p d vs zero, NoDup (map n_id t) /\ InRange t ->
+  NoDup (map n_id (walk h t p d rest vs zero)) /\ InRange (walk h t p d rest vs zero).
+Proof.
+  induction rest as [|f rest IH]; intros t p d vs zero [H1 H2]; [split; assumption|]. cbn [walk].
+  apply IH. split; [apply bump_nodup; exact H1|apply bump_in_range; exact H2].
+Qed.
+
+Lemma post_process_nodup_range h nt ss :
+  NoDup (map n_id (post_process h nt ss)) /\ InRange (post_process h nt ss).
+Proof.
+  unfold post_process.
+  assert (G : forall ss t, NoDup (map n_id t) /\ InRange t ->
+    NoDup (map n_id (fold_left (add_sample h (zero_vals nt)) ss t)) /\ InRange (fold_left (add_sample h (zero_vals nt)) ss t)).
+  { clear ss. induction ss as [|s ss IH]; intros t H; [exact H|]. cbn [fold_left]. apply IH. apply walk_nodup_range. exact H. }
+  apply G. split; [constructor|intros n s tt []].
+Qed.
+
+(* node by node, for every hash: the stored (self, total) of a row are those sums modulo 2^64 *)
+Theorem stored_node_meaning h nt ss k n : (k < nt)%nat -> In n (post_process h nt ss) ->
+  snd (val_at k n) = wrap64 (sumZ (map (fun s => nth k (s_values s) 0 * cnt (n_id n) (sample_ids h s)) ss)) /\
+  fst (val_at k n) = wrap64 (sumZ (map (fun s => nth k (s_values s) 0 * leaf_cnt (n_id n) (sample_ids h s)) ss)).
+Proof.
+  intros Hk Hn. destruct (post_process_nodup_range h nt ss) as [Hnd Hr].
+  destruct (stored_values_meaning h nt ss k (n_id n) Hk) as [H1 H2]. cbn zeta in H1, H2.
+  rewrite tot_at_gsum in H1. rewrite self_at_gsum in H2. rewrite gsum_nodup in H1, H2 by assumption.
+  destruct (val_at_in_range k _ n Hr Hn) as [R1 R2].
+  split; apply in_range_eqm; assumption.
 Qed.
